@@ -207,6 +207,8 @@ type c11CacheLine struct {
 	MAC    []byte `json:"mac"`
 	Upper  bool   `json:"upper_case_mac"`
 	Extra  string `json:"extra_fields"`
+	// an incomplete entry (as other tools write for FAILED / INCOMPLETE neighbours): "" | no-mac | null-mac | no-ip | null-ip | empty
+	Broken string `json:"incomplete_entry,omitempty"`
 }
 
 func (l c11CacheLine) render() string {
@@ -221,6 +223,18 @@ func (l c11CacheLine) render() string {
 	if l.Upper {
 		mac = strings.ToUpper(mac)
 	}
+	switch l.Broken {
+	case "no-mac":
+		return fmt.Sprintf(`{"ip":"%s"%s}`, ip, l.Extra)
+	case "null-mac":
+		return fmt.Sprintf(`{"ip":"%s","mac":null%s}`, ip, l.Extra)
+	case "no-ip":
+		return fmt.Sprintf(`{"mac":"%s"%s}`, mac, l.Extra)
+	case "null-ip":
+		return fmt.Sprintf(`{"ip":null,"mac":"%s"%s}`, mac, l.Extra)
+	case "empty":
+		return `{}`
+	}
 	return fmt.Sprintf(`{"ip":"%s","mac":"%s"%s}`, ip, mac, l.Extra)
 }
 
@@ -231,6 +245,7 @@ type c11FileCase struct {
 	Gateway bool  `json:"gateway_mac_present"`
 	Readers int   `json:"concurrent_readers"`
 	Long16  bool  `json:"requests_use_16_byte_addresses"`
+	Broken  bool  `json:"file_has_incomplete_entries,omitempty"`
 }
 
 func c11GenLines(t *rapid.T, n int) []c11CacheLine {
@@ -255,15 +270,33 @@ func c11FileCheck(c c11FileCase) *kit.Verdict {
 	v := &kit.Verdict{Units: len(c.Lines) + len(c.Lookups)}
 	var sb strings.Builder
 	last := map[uint32][]byte{}
+	onBroken := map[uint32]bool{} // addresses named by an incomplete entry: the file says nothing definite about them
+	broken := false
 	for _, l := range c.Lines {
 		sb.WriteString(l.render() + "\n")
+		if l.Broken != "" {
+			broken = true
+			if l.V6 == "" && (l.Broken == "no-mac" || l.Broken == "null-mac") {
+				onBroken[l.IP] = true
+			}
+			continue
+		}
 		if l.V6 == "" {
 			last[l.IP] = l.MAC
 		}
 	}
 	cache := arp.NewCache()
 	if err := arp.FillCache(cache, strings.NewReader(sb.String())); err != nil {
+		if broken {
+			// a file with incomplete entries may be refused as a whole
+			v.Label("incomplete-entries-refused")
+			v.NonTrivial = true
+			return v
+		}
 		return v.Failf("FillCache refused a well-formed cache file: %v\n%s", err, clipN(sb.String(), 500))
+	}
+	if broken {
+		v.Label("incomplete-entries-accepted")
 	}
 	var gw net.HardwareAddr
 	if c.Gateway {
@@ -338,7 +371,10 @@ func c11FileCheck(c c11FileCase) *kit.Verdict {
 					errs <- fmt.Errorf("request %d: destination changed from %s to %v", i, gram.U32String(q.ip), out.DstIP)
 					return
 				}
-				if want == "" {
+				if onBroken[q.ip] && (out.Err != nil || c.Gateway && net.HardwareAddr(out.DstMAC).String() == gw.String()) {
+					// the file named this address without a MAC: falling back to the gateway / an error is as good as
+					// the MAC of an earlier complete line
+				} else if want == "" {
 					if out.Err == nil {
 						errs <- fmt.Errorf("request %d for %s: no cache entry and no gateway MAC, but it was not replaced by an error (dst MAC %v)", i, gram.U32String(q.ip), net.HardwareAddr(out.DstMAC))
 						return
@@ -386,10 +422,21 @@ func (g *c11ReqGen) GenerateRequests(ctx context.Context, r *scan.Range) (<-chan
 func TestC11CacheFile(t *testing.T) {
 	kit.Run(t, kit.Spec[c11FileCase]{
 		Prop: "C11",
-		Rule: "cache files of 1..400 lines (duplicate addresses, 4-byte and ::ffff: spellings, upper/lower-case MACs, unknown extra fields, lines of IPv6 neighbours) loaded by arp.FillCache, then request streams (addresses in the file and not in it incl. 0.0.0.0, the same address several times in a row, 4- or 16-byte DstIP) resolved through arp.NewCacheRequestGenerator by 1..32 concurrent readers of the shared cache, gateway MAC present or absent, race detector on. Oracle: DstMAC = MAC of the last line for the request's own address, else the gateway MAC, else the request carries an error; destination unchanged; same count in and out. non-trivial: >=2 lines and >=2 lookups; distinct by case",
+		Rule: "cache files of 1..400 lines (duplicate addresses, 4-byte and ::ffff: spellings, upper/lower-case MACs, unknown extra fields, lines of IPv6 neighbours; in a fifth of the files one or two incomplete entries - no/null mac, no/null ip, {} - which the loader may refuse as a whole) loaded by arp.FillCache, then request streams (addresses in the file and not in it incl. 0.0.0.0, the same address several times in a row, 4- or 16-byte DstIP) resolved through arp.NewCacheRequestGenerator by 1..32 concurrent readers of the shared cache, gateway MAC present or absent, race detector on. Oracle: DstMAC = MAC of the last line for the request's own address, else the gateway MAC, else the request carries an error; destination unchanged; same count in and out. non-trivial: >=2 lines and >=2 lookups; distinct by case",
 		Gen: func(t *rapid.T) c11FileCase {
 			c := c11FileCase{Gateway: rapid.Bool().Draw(t, "gw"), Readers: rapid.SampledFrom([]int{1, 2, 8, 32}).Draw(t, "readers"), Long16: rapid.Bool().Draw(t, "long16")}
 			c.Lines = c11GenLines(t, rapid.SampledFrom([]int{1, 2, 5, 20, 400}).Draw(t, "nlines"))
+			if rapid.IntRange(0, 4).Draw(t, "incomplete") == 0 && len(c.Lines) >= 2 {
+				// one or two incomplete entries after the first line
+				c.Broken = true
+				for k := rapid.IntRange(1, 2).Draw(t, "nbroken"); k > 0; k-- {
+					i := 1 + kit.Uniform(t, "broken-at", len(c.Lines)-1)
+					c.Lines[i].Broken = rapid.SampledFrom([]string{"no-mac", "null-mac", "no-ip", "null-ip", "empty"}).Draw(t, "broken-kind")
+					if rapid.Bool().Draw(t, "broken-own-address") {
+						c.Lines[i].IP = uint32(kit.UniformInt64(t, "bip", 1, 1<<32-2))
+					}
+				}
+			}
 			nl := rapid.SampledFrom([]int{1, 4, 30, 150}).Draw(t, "nlookups")
 			for i := 0; i < nl; i++ {
 				if k := rapid.IntRange(0, 5).Draw(t, "miss"); k == 0 {
